@@ -15,6 +15,7 @@ WT = os.environ.get('MATRIX_WT', '/tmp/mxwt2')      # patches are applied in a s
 if not os.path.isdir(WT):
     subprocess.run(['git', '-C', '/repo', 'worktree', 'add', '-q', '--detach', WT, 'HEAD'], check=True)
 subprocess.run(['git', '-C', WT, 'checkout', '-q', '--', '.'], check=True)
+subprocess.run(['git', '-C', WT, 'checkout', '-q', '--detach', subprocess.run(['git', '-C', '/repo', 'rev-parse', 'HEAD'], stdout=subprocess.PIPE, universal_newlines=True).stdout.strip()], check=True)
 ENV = dict(os.environ, VERIF_REPO=WT)
 for (pid, v), good in sorted(ok.items()):
     key = pid + v
